@@ -510,11 +510,13 @@ _ALSO4 = {
     "C04": " An index consumed by a simplification pass on the whole network is proven not to be an output index on every path; the result of isometrize() is flagged on the side its shape makes isometric.",
     "C05": " A split driver with a fixed form is judged isometric by its registered default, not by the requested absorb; the eigenvalue selection of the iterative hermitian driver, the error after the bond cap and the window size are decided by sibling / ordering rules.",
     "C06": " The pair a swap-based gate acts on is the requested (i, j) in order.",
+    "C07": " Sites re-bound to a sorted version are not handed on next to the unpermuted operator (permutation-tracking MPS).",
+    "C16": " A buffer capacity that grows by doubling is seeded with a value that is positive whenever the sizes are (sign / zero abstract evaluation).",
     "C08": " The record is updated only for the object handed back (satisfiability of fork vs in-place receiver); a compressed swap canonicalizes the pair before it moves the record.",
     "C10": " A truncating two-site update renormalises the kept spectrum; the one-site sweep enforces the bond cap explicitly.",
     "C11": " A single-site term keeps the side it was assigned to when its bond is flipped; cyclic imaginary-time sweeps renormalise with the full norm.",
     "C12": " Environments stored from a working network that is contracted further are private copies; a copy used together with `gauges=G` is taken before G is re-inserted; norms are stripped from the contracted boundary only.",
-    "C13": " singular_values (and the Schmidt values / entropies built on it) read the stored exponent; a pair of sites is sorted together with its operator.",
+    "C13": " singular_values (and the Schmidt values / entropies built on it) read the stored exponent; a pair of sites is sorted together with its operator; no exit returns evaluated values before the exponent is applied; a sorted copy of the requested sites does not order the axes of a dense result.",
     "C14": " The output axis of a marginal contraction is selected by the queried index.",
     "C15": " The sparse partial trace recursion reaches its base case with the reduced dims; (known finding) partial_trace orders the kept subsystems ascending whereas pkron honours the order given.",
     "C17": " The window driver hands k to both routes.",
